@@ -97,7 +97,7 @@ def rule_taint(ctx):
         ctx.check(R, "IfThenElse/both-branch-regions-of-this-block", okb, "true: %s false: %s" % (render(tb) if tb else "?", render(fb) if fb else "?"), site(TA, a))
         if len(steps) == 1:
             c2 = [fact_str(c).replace(" ", "") for c in (conditions_to(a["body"], steps[0]) or [])]
-            ok = c2 == ["!cond.value().is_some()", "forbodyintrue_branch.iter().chain(false_branch.iter())", "forsinkinbody.variables_written()", "forsourceincond.variables_read()"]
+            ok = c2 in (["!cond.value().is_some()", "forbodyintrue_branch.iter().chain(false_branch.iter())", "forsinkinbody.variables_written()", "forsourceincond.variables_read()"], ["!cond.value().is_some()", "forbodyincfg.get_true_branch(basic_block).iter().chain(cfg.get_false_branch(basic_block).iter())", "forsinkinbody.variables_written()", "forsourceincond.variables_read()"])
             ctx.check(R, "IfThenElse/condition-taints-everything-written-in-both-regions", ok and [render(strip(x)).replace(" ", "") for x in steps[0]["args"]] == ["source.name()", "sink.name()"], "step under %s" % c2, site(TA, steps[0]))
         else:
             ctx.bad(R, "IfThenElse/condition-taints-everything-written-in-both-regions", "expected one add_taint_step, found %d" % len(steps), site(TA, a))
@@ -107,7 +107,24 @@ def rule_taint(ctx):
         t = render(mt["body"]).replace(" ", "")
         pv = sgrep.params(mt)
         envl = sgrep.lets(mt["body"])
-        ok = bool(pv) and sgrep.has(mt["body"], "HashSet::from([__src])", None, {"__src": pv[0]}) and sgrep.has(mt["body"], "while !__u.is_subset(__r) { __body }") and sgrep.has(mt["body"], "__r.extend(__u.iter().cloned())") and sgrep.has(mt["body"], "__u = __u.iter().flat_map(|__x| self.single_step_taint(__x)).collect()")
+        ok = False
+        if pv and sgrep.has(mt["body"], "HashSet::from([__src])", None, {"__src": pv[0]}):
+            for ext, b_ in sgrep.find(mt["body"], "__r.extend(__u.iter().cloned())"):
+                step = sgrep.find(mt["body"], "__u = __u.iter().flat_map(|__x| self.single_step_taint(__x)).collect()", None, {"__u": b_["__u"]})
+                seed = envl.get(b_["__u"])
+                if not step or seed is None or not sgrep.match(sgrep.pattern("HashSet::from([__src])"), seed, {"__src": pv[0]}):
+                    continue
+                good = True
+                for node in (ext, step[0][0]):
+                    cs_ = conditions_to(mt["body"], node) or []
+                    inloop = any(c[0] == "loop" for c in cs_)
+                    # iterate exactly while the frontier is not yet contained in the result (while-form or loop/break form)
+                    guard = [c for c in cs_ if c[0] == "if"]
+                    good = good and inloop and len(guard) == 1 and not guard[0][2] and sgrep.match(sgrep.pattern("__u.is_subset(__r)"), guard[0][1], {"__u": b_["__u"], "__r": b_["__r"]})
+                from astlib import block_tail as _bt
+
+                tail = _bt(mt["body"])
+                ok = good and tail is not None and render(strip(tail)) == b_["__r"]
         ctx.check(R, "TaintAnalysis::multi_step_taint/reflexive-transitive-closure", ok, t[:260], site(TA, mt))
     ta = find_fn(TA, "taints_any")
     if ta is not None:
@@ -235,10 +252,10 @@ def rule_selection(ctx):
         return
     pushes = [p for p in method_calls(fn["body"], "push") if render(strip(p["recv"])) == "reports"]
     want = {
-        "build_unused_param": ["fortaint_analysis.definitions()", "!variables_read.contains(source.name())", "cfg.parameters().contains(source.name())"],
-        "build_unused_variable": ["fortaint_analysis.definitions()", "!variables_read.contains(source.name())", "!cfg.parameters().contains(source.name())"],
-        "build_param_without_side_effect": ["fortaint_analysis.definitions()", "variables_read.contains(source.name())", "!taint_analysis.taints_any(source.name(),&sinks)", "cfg.parameters().contains(source.name())"],
-        "build_variable_without_side_effect": ["fortaint_analysis.definitions()", "variables_read.contains(source.name())", "!taint_analysis.taints_any(source.name(),&sinks)", "!cfg.parameters().contains(source.name())"],
+        "build_unused_param": ["forrun_taint_analysis(cfg).definitions()", "!variables_read.contains(source.name())", "cfg.parameters().contains(source.name())"],
+        "build_unused_variable": ["forrun_taint_analysis(cfg).definitions()", "!variables_read.contains(source.name())", "!cfg.parameters().contains(source.name())"],
+        "build_param_without_side_effect": ["forrun_taint_analysis(cfg).definitions()", "variables_read.contains(source.name())", "!run_taint_analysis(cfg).taints_any(source.name(),&sinks)", "cfg.parameters().contains(source.name())"],
+        "build_variable_without_side_effect": ["forrun_taint_analysis(cfg).definitions()", "variables_read.contains(source.name())", "!run_taint_analysis(cfg).taints_any(source.name(),&sinks)", "!cfg.parameters().contains(source.name())"],
     }
     seen = set()
     for p in pushes:
